@@ -136,6 +136,33 @@ pub fn check_seed<V: Fv>(seed: [u8; 32], nmsgs: usize, vseed: u64, rep: &mut Rep
         }
         rep.count("signatures_roundtripped", 1);
     }
+    // one more signature with the decoded key under a generator stream that makes the sampler
+    // accept wide candidates (large vectors: norm rejections and GENUINE compression failures,
+    // not the failpoint's), Falcon-1024 only (its compression budget is the tight one)
+    if V::N == 1024 {
+        let strat = crate::gen::Strategy::ForceAccept { rate_pm: 150, groups: 6 * 1024 };
+        let srng = crate::gen::ScriptedRng::new(vseed, &format!("c05-wide-{}", hex(&seed[..8])), strat, crate::signer::progress_budget(V::N));
+        let msg = b"wide candidates".to_vec();
+        let out = crate::signer::sign_scripted::<V>(&msg, &sk2, srng, false, 0);
+        rep.evaluations += 1;
+        match out.sig {
+            Ok(sig) => {
+                let sb = V::sig_to_bytes(&sig);
+                let v1 = monitored(|| V::verify(&msg, &sig, &pk)).unwrap_or(false);
+                let v2 = sb.len() == V::SIG_LEN && spec::verify_traced(&msg, &sb[1..41], &sb[41..], &h).0;
+                if sb.len() != V::SIG_LEN || !v1 || !v2 {
+                    rep.violation("sig:decoded-key-signature-rejected", format!("{} signature made with the decoded key after {} norm rejections and {} genuine compression failures: length {}, verify = {}, reference = {}", V::NAME, out.norm_rejects, out.compress_fails, sb.len(), v1, v2), replay());
+                }
+                if out.compress_fails > 0 {
+                    rep.count("signatures_after_genuine_compression_failures", 1);
+                }
+            }
+            Err(p) => {
+                let sigk = if p.no_progress { "sign:no-progress-with-decoded-key".to_string() } else { format!("panic:sign@{}", short_loc(&p.location)) };
+                rep.violation(&sigk, format!("{} sign with the decoded key failed under a wide-candidate stream ({} norm rejections, {} compression failures): {}", V::NAME, out.norm_rejects, out.compress_fails, p.message), replay());
+            }
+        }
+    }
     // the same round trips AFTER the objects have been used (pk in verify, sk2 in sign): the
     // property's equality is the crate's own `==`; state attached to an object by its use (a
     // lazily filled cache, a counter) must not make it differ from a freshly decoded copy
